@@ -15,6 +15,8 @@ import Pdb.Model.BTree
 import Pdb.Model.BTreeBatch
 import Pdb.Model.Index
 import Pdb.Model.DumpCheck
+import Pdb.Model.DumpCheckRc
+import Pdb.Model.C02xDriver
 
 open Pdb
 
@@ -112,6 +114,7 @@ structure State where
   c04 : Option Pdb.C04.Drv := none
   c04b : Option Pdb.C04.DrvB := none
   c09 : Pdb.Index.DState := Pdb.Index.DState.init
+  c02x : Pdb.C02xDriver.State := none
 
 def stepLine (s : State) (line : String) : State × String :=
   let ws := (line.trimAscii.toString.splitOn " ").filter (· ≠ "")
@@ -147,6 +150,10 @@ def stepLine (s : State) (line : String) : State × String :=
     ({ s with c06 := st' }, out)
   | "c06" :: rest => (s, Pdb.ValueTable.driverLine rest)
   | "t2" :: rest => (s, Pdb.DumpCheck.driverLine rest)
+  | "t2rc" :: rest => (s, Pdb.DumpCheckRc.driverLine rest)
+  | "c02x" :: rest =>
+    let (c, o) := Pdb.C02xDriver.step s.c02x rest
+    ({ s with c02x := c }, o)
   | [] => (s, "")
   | _ => (s, "bad-op")
 
